@@ -199,6 +199,18 @@ class SetOf(ArrayType):
                                     Tag.SET,
                                     element_type)
 
+    def encode_content(self, data, values=None):
+        encoded_elements = []
+
+        for entry in data:
+            encoded_element = bytearray()
+            self.element_type.encode(entry, encoded_element)
+            encoded_elements.append(encoded_element)
+
+        # X.690 11.6: the encodings of the component values of a
+        # set-of value shall appear in ascending order.
+        return bytearray().join(sorted(encoded_elements))
+
 
 class UTF8String(StringType):
 
